@@ -494,6 +494,21 @@ func c14DrawCase(rt *rapid.T) *c14Case {
 	for i := 0; i < nch; i++ {
 		changes = append(changes, c14DrawChange(rt, i))
 	}
+	// Module scenario (cli): a go.mod in a sub-directory, a file of that
+	// module and a file outside it that imports the module next to other
+	// third-party packages; both are rewritten by the same change.
+	moduleScenario := cs.Kind == "cli" && rapid.IntRange(0, 5).Draw(rt, "moduleScenario") == 0
+	if moduleScenario {
+		for i := range c14Specials {
+			if sp := &c14Specials[i]; sp.Label == "module-imports" {
+				ch := &c14Change{Label: "special:" + sp.Label, Text: sp.Text}
+				for k := 0; k < 2; k++ {
+					ch.Hosts = append(ch.Hosts, c14Plant(rt, sp.Host, sp, fmt.Sprintf("modPlant%d", k)))
+				}
+				changes = append([]*c14Change{ch}, changes...)
+			}
+		}
+	}
 	join := func(chs []*c14Change) string {
 		var b strings.Builder
 		for _, ch := range chs {
@@ -552,7 +567,15 @@ func c14DrawCase(rt *rapid.T) *c14Case {
 				}
 			}
 		}
-		if rapid.IntRange(0, 2).Draw(rt, "moduleFile") == 0 {
+		if moduleScenario {
+			// the first two files are the scenario's: one inside the module,
+			// one outside it and later in path order
+			mod := changes[0]
+			inside := c14File{Name: "sub/m0mod.go", Src: mod.Hosts[0], Role: "own"}
+			outside := c14File{Name: "z9outside.go", Src: mod.Hosts[1], Role: "own"}
+			cs.Files = append([]c14File{inside, outside}, cs.Files...)
+			cs.Extra = append(cs.Extra, c14File{Name: "sub/go.mod", Src: "module example.com/c14mod\n\ngo 1.22\n", Role: "module-file"})
+		} else if rapid.IntRange(0, 2).Draw(rt, "moduleFile") == 0 {
 			dir := rapid.SampledFrom([]string{"sub/", "sub/deep/", ""}).Draw(rt, "moduleDir")
 			cs.Extra = append(cs.Extra, c14File{Name: dir + "go.mod", Src: "module example.com/c14mod\n\ngo 1.22\n", Role: "module-file"})
 		}
